@@ -1878,7 +1878,7 @@ def main():
     old = open(path).read() if os.path.exists(path) else None
     if old != new:
         open(path, "w").write(new)
-    n_obl = 2 + len(rows) + len(site_rows) + 1
+    n_obl = 10 + len(fn_order) + 3   # segments of both scalers, callees, state table, site table, lazy protocol
     rep = {"obligations": n_obl,
            "samples": [{"persist": rows[:3]}, {"sites": site_rows[:3]}, {"lazy": lazy}],
            "unparsed": unparsed, "changed": old != new}
